@@ -224,7 +224,7 @@ type pipeline struct {
 	// plaintext verbatim (nil: the pipeline has no such form)
 	genStored func(rnd *hx.Rand, size int) []byte
 	valid     func(transit []byte) bool
-	fixed   [][]byte // fixed transit bodies (corpus) used instead of gen
+	fixed     [][]byte // fixed transit bodies (corpus) used instead of gen
 	// class is the target whose still-valid finding this pipeline shares
 	// (only the uncompressed downloads have one)
 	class string
@@ -412,7 +412,9 @@ func pipelines(corpus string) []pipeline {
 		}
 		return p
 	}
-	mkOracle := func(uri, comp string) (driver.Updater, error) { return oracle.NewUpdater(2021, oracle.WithURL(uri, comp)) }
+	mkOracle := func(uri, comp string) (driver.Updater, error) {
+		return oracle.NewUpdater(2021, oracle.WithURL(uri, comp))
+	}
 	mkSuse := func(uri, comp string) (driver.Updater, error) {
 		return suse.NewUpdater(&claircore.Distribution{Name: "SUSE Linux Enterprise Server", Version: "15", DID: "sles", VersionID: "15", PrettyName: "SUSE Linux Enterprise Server 15"}, suse.WithURL(uri, comp))
 	}
@@ -428,7 +430,7 @@ func pipelines(corpus string) []pipeline {
 	// aws: mirror list, repomd.xml, then the gzip'd updateinfo
 	ps = append(ps, pipeline{name: "aws", wrapper: "gzip", gen: func(rnd *hx.Rand, n int) []byte { return gz(genAWS(rnd, n)) }, valid: validAWS,
 		genStored: func(rnd *hx.Rand, n int) []byte { return gzStored(genAWS(rnd, n)) },
-		plain: unz("gzip"), loop: "one-xml-drain", stage: "aws",
+		plain:     unz("gzip"), loop: "one-xml-drain", stage: "aws",
 		site: func([]byte) map[string][]byte {
 			return map[string][]byte{"mirror.list": []byte("http://mirror.test/al1\nhttp://mirror2.test/al1\n"), "repomd.xml": awsRepomd}
 		},
@@ -472,7 +474,7 @@ func pipelines(corpus string) []pipeline {
 	// epss: gzip'd CSV
 	ps = append(ps, pipeline{name: "epss", wrapper: "gzip", gen: func(rnd *hx.Rand, n int) []byte { return gz(genEPSSCSV(rnd, 2*n)) },
 		genStored: func(rnd *hx.Rand, n int) []byte { return gzStored(genEPSSCSV(rnd, 2*n)) },
-		valid: validWrapped("gzip", validEPSSCSV), routes: one(".csv.gz"), plain: unz("gzip"), loop: "csv-epss", stage: "inline", path: "/epss_scores-2024-10-25.csv.gz",
+		valid:     validWrapped("gzip", validEPSSCSV), routes: one(".csv.gz"), plain: unz("gzip"), loop: "csv-epss", stage: "inline", path: "/epss_scores-2024-10-25.csv.gz",
 		mk: func(c *http.Client) (driver.Updater, driver.ConfigUnmarshaler, error) {
 			return &epss.Enricher{}, jsonConfig(map[string]string{"url": "http://epss.test/epss_scores-2024-10-25.csv.gz"}), nil
 		}})
@@ -480,7 +482,7 @@ func pipelines(corpus string) []pipeline {
 	// cvss: one .meta and one .json.gz per year; the damaged download is the year 2002 file
 	ps = append(ps, pipeline{name: "cvss", wrapper: "gzip", gen: func(rnd *hx.Rand, n int) []byte { return gz(genNVD(rnd, 2002, 2*n)) },
 		genStored: func(rnd *hx.Rand, n int) []byte { return gzStored(genNVD(rnd, 2002, 2*n)) },
-		valid: validWrapped("gzip", validNVD), plain: unz("gzip"), loop: "one-json-drain", stage: "inline",
+		valid:     validWrapped("gzip", validNVD), plain: unz("gzip"), loop: "one-json-drain", stage: "inline",
 		site: func([]byte) map[string][]byte { return map[string][]byte{"meta": cvssMeta, "other-year": cvssOther} },
 		routes: func(b body, aux map[string]body) []route {
 			return []route{
@@ -501,7 +503,7 @@ func pipelines(corpus string) []pipeline {
 	// (with one GET per changed advisory) and deletions.csv
 	ps = append(ps, pipeline{name: "vex", wrapper: "tar.zst", gen: func(rnd *hx.Rand, n int) []byte { return genVEXArchive(rnd, n+2) },
 		genStored: func(rnd *hx.Rand, n int) []byte { return genVEXArchiveRaw(rnd, n+2) },
-		valid: validVEXArchive, site: vexSite,
+		valid:     validVEXArchive, site: vexSite,
 		partValid: func(name string) func([]byte) bool {
 			switch {
 			case strings.HasSuffix(name, ".csv"):
